@@ -896,8 +896,9 @@ def spec_ref(b, an, bad):
     for p in parts[1:]:
         t = ('ATTR', t, p)
     want_callee = t
-    if b.cfg.ctx and not local:
-        # late binding: non-local references go through the context object
+    if b.cfg.ctx and not local and parts[0] != '_super_ctx':
+        # late binding: non-local references go through the context object (`super.R` is lexical:
+        # rooted at the module-global _super_ctx)
         t = ('VAR', '_ctx')
         for p in parts:
             t = ('ATTR', t, p)
